@@ -1476,10 +1476,19 @@ func parseListLevel(s string) int {
 	for _, c := range s {
 		if c >= '0' && c <= '9' {
 			level = level*10 + int(c-'0')
+			// WordprocessingML has nine list levels (0-8). The level is used as an
+			// indentation loop count and as a map key, so a damaged attribute must
+			// not turn into billions of iterations (or overflow).
+			if level > maxListLevel {
+				return maxListLevel
+			}
 		}
 	}
 	return level
 }
+
+// maxListLevel is the deepest list level of WordprocessingML (ilvl 0-8).
+const maxListLevel = 8
 
 // Lists returns all parsed lists from the document.
 func (r *Reader) Lists() []ParsedList {
